@@ -1656,8 +1656,9 @@ def diff(x, n=1, axis=-1):
     if x.a.ndim != 1:
         raise Unsupported("diff n-d")
     if x._dt.kind == "b":
-        return x[1:] != x[:-1]
-    return x[1:] - x[:-1]
+        return not_equal(x[1:], x[:-1])
+    # np.diff applies the *ufunc* np.subtract: on masked arrays that is raw data + union of masks
+    return subtract(x[1:], x[:-1])
 
 
 def _ufunc1(op):
